@@ -204,6 +204,44 @@ def kernel_jobs(rng, tier):
             n += 1
             jobs.append({"kind": "annulus", "cx": cx, "cy": cy, "r": [r, 1], "ri": [ri, 1], "how": hows[n % 7],
                          "tag": "half_annulus_%d_%d" % (a, b)})
+    # non-binary fractional cell sizes (0.1, 0.2, 0.05, 0.3, 0.3048) with radii that are exact integer multiples of
+    # them: the exact quotient is the integer k (TruncDiv on rationals in the judge).  Binary floats store these
+    # cells slightly off, so true division r / cell may land just BELOW k for some pairs (0.3 / 0.1 =
+    # 2.9999999999999996): those are borderlines of float division and are skipped (soundness rule 3); kept are
+    # the pairs on which true division is exact-or-above, where int(r / cell) must be k (floor division is not).
+    from fractions import Fraction as Fr
+    fcells = [Fr(1, 10), Fr(1, 5), Fr(1, 20), Fr(3, 10), Fr(381, 1250)]
+    skipped = 0
+
+    def exact_or_above(r, c):
+        k = r / c
+        return k.denominator == 1 and int(float(r) / float(c)) == int(k)
+    fpairs = [(c, c) for c in fcells] + [(Fr(1, 10), Fr(1, 5)), (Fr(1, 20), Fr(1, 10)), (Fr(3, 10), Fr(1, 10)),
+                                          (Fr(1, 5), Fr(1, 20))]
+    fh = ["float", "np", "str"]
+    for cx, cy in fpairs:
+        step = max(cx, cy) if (max(cx, cy) / min(cx, cy)).denominator == 1 else cx * cy.denominator
+        for k in range(1, 13 if tier == "quick" else 21):
+            r = step * k
+            if r / min(cx, cy) > 30:
+                break
+            if not (exact_or_above(r, cx) and exact_or_above(r, cy)):
+                skipped += 1
+                continue
+            n += 1
+            q = lambda f: [f.numerator, f.denominator]
+            jobs.append({"kind": "circle", "cx": q(cx), "cy": q(cy), "r": q(r), "how": fh[n % 3], "tag": "decimal_cells"})
+            for ki in (1, k // 2, k):
+                ri = step * ki
+                if ki >= 1 and exact_or_above(ri, cx) and exact_or_above(ri, cy):
+                    n += 1
+                    jobs.append({"kind": "annulus", "cx": q(cx), "cy": q(cy), "r": q(r), "ri": q(ri), "how": fh[n % 3],
+                                 "tag": "decimal_cells"})
+    jobs.append({"kind": "circle", "cx": [381, 1250], "cy": [381, 1250], "r": [381, 125], "rstr": "10ft",
+                 "how": "float", "tag": "decimal_cells"})
+    jobs.append({"kind": "circle", "cx": [1, 10], "cy": [1, 5], "r": [1, 1], "rstr": "1 m", "how": "float",
+                 "tag": "decimal_cells"})
+    SKIPPED[0] = skipped
     # radii given as strings with units (metres = r), large cells
     for rstr, r, cx, cy in (("1.2km", [1200, 1], [500, 1], [250, 1]), ("0.5 km", [500, 1], [100, 1], [125, 1]),
                             ("12ft", [4572, 1250], [1, 1], [1, 2]), ("2 miles", [402336, 125], [1000, 1], [500, 1]),
@@ -327,6 +365,7 @@ def check_worker(cases):
 
 
 SEEN = {}
+SKIPPED = [0]
 KNOWN = []
 
 
@@ -503,6 +542,7 @@ def judge_cases(ctx, cases):
         ctx.sample({"kind": "parse", "cases": [(c["s"], c["pub"], c.get("raw")) for c in pc[:12]]})
     ctx.extra["strings_replayed"] = len(pc)
     ctx.extra["kernels_replayed"] = len(kc)
+    ctx.extra["decimal_cell_pairs_skipped_as_float_division_borderline"] = SKIPPED[0]
     if KNOWN:
         ctx.note("modelled deviation (DistanceOps.IsFloatWord): _get_distance returns NaN/inf for %s; the public "
                  "circle_kernel rejects them, so the property holds" % sorted(set(KNOWN)))
